@@ -102,7 +102,11 @@ func (r *Report) emit(o checkOpts, toolErrs []string) int {
 			line += " no-failing-input-found"
 		}
 		violationLines = append(violationLines, line)
-		fmt.Printf("FAILED-OBLIGATION: %s verdict=%s goal: %s @%s:%d path[%s]\n", name, obl.Verdict, obl.GoalText, shortFile(obl.Pos.Filename), obl.Pos.Line, obl.PathDesc)
+		why := ""
+		if obl.Unbound != "" {
+			why = " reason: " + obl.Unbound
+		}
+		fmt.Printf("FAILED-OBLIGATION: %s verdict=%s goal: %s @%s:%d path[%s]%s\n", name, obl.Verdict, obl.GoalText, shortFile(obl.Pos.Filename), obl.Pos.Line, obl.PathDesc, why)
 	}
 	stale := []string{}
 	for _, kf := range kfs {
